@@ -2,7 +2,7 @@
 import YaclibModel.Proofs.FiberSyncProgress
 import YaclibModel.Proofs.FiberSyncRec
 import YaclibModel.Proofs.FiberSyncSharedInv
-import YaclibModel.Model.FiberSyncThread
+import YaclibModel.Proofs.FiberSyncThread
 
 namespace Yaclib.FiberSync
 
